@@ -131,6 +131,12 @@ module Nat =
     leb (S n0) m
  end
 
+(** val tl : 'a1 list -> 'a1 list **)
+
+let tl = function
+| [] -> []
+| _ :: m -> m
+
 (** val nth : nat -> 'a1 list -> 'a1 -> 'a1 **)
 
 let rec nth n0 l default =
@@ -220,10 +226,10 @@ let rec filter f = function
 let rec combine l l' =
   match l with
   | [] -> []
-  | x :: tl ->
+  | x :: tl0 ->
     (match l' with
      | [] -> []
-     | y :: tl' -> (x, y) :: (combine tl tl'))
+     | y :: tl' -> (x, y) :: (combine tl0 tl'))
 
 (** val firstn : nat -> 'a1 list -> 'a1 list **)
 
@@ -7900,6 +7906,126 @@ let read_scalar s = match s with
             | _ -> Some s)
          | _ -> Some s)
       | _ -> Some s))
+
+(** val sEP : n list **)
+
+let sEP =
+  (Npos (XO (XO (XI (XI (XO XH)))))) :: ((Npos (XO (XO (XO (XO (XO
+    XH)))))) :: [])
+
+(** val cOLON : n list **)
+
+let cOLON =
+  (Npos (XO (XI (XO (XI (XI XH)))))) :: ((Npos (XO (XO (XO (XO (XO
+    XH)))))) :: [])
+
+(** val join_sep : n list list -> n list **)
+
+let rec join_sep = function
+| [] -> []
+| x :: r -> (match r with
+             | [] -> x
+             | _ :: _ -> app x (app sEP (join_sep r)))
+
+(** val env_entry : (n list * n list) -> n list **)
+
+let env_entry kv =
+  app (yaml_scalar (fst kv)) (app cOLON (yaml_quoted (snd kv)))
+
+(** val env_text : (n list * n list) list -> n list **)
+
+let env_text env0 =
+  app ((Npos (XI (XI (XO (XI (XI (XI XH))))))) :: [])
+    (app (join_sep (map env_entry env0)) ((Npos (XI (XO (XI (XI (XI (XI
+      XH))))))) :: []))
+
+(** val starts2 : n -> n -> n list -> bool **)
+
+let starts2 a b = function
+| [] -> false
+| x :: l ->
+  (match l with
+   | [] -> false
+   | y :: _ -> (&&) (N.eqb x a) (N.eqb y b))
+
+(** val head_is : n -> n list -> bool **)
+
+let head_is a = function
+| [] -> false
+| x :: _ -> N.eqb x a
+
+(** val split_colon : n list -> (n list * n list) option **)
+
+let rec split_colon s = match s with
+| [] -> None
+| c :: r ->
+  if starts2 (Npos (XO (XI (XO (XI (XI XH)))))) (Npos (XO (XO (XO (XO (XO
+       XH)))))) s
+  then Some ([], (tl r))
+  else (match split_colon r with
+        | Some p -> let (k, rest) = p in Some ((c :: k), rest)
+        | None -> None)
+
+(** val read_key : n list -> (n list * n list) option **)
+
+let read_key s =
+  if head_is (Npos (XO (XI (XO (XO (XO XH)))))) s
+  then (match rq QN [] (tl s) with
+        | Some p ->
+          let (k, r) = p in
+          if starts2 (Npos (XO (XI (XO (XI (XI XH)))))) (Npos (XO (XO (XO (XO
+               (XO XH)))))) r
+          then Some (k, (skipn (S (S O)) r))
+          else None
+        | None -> None)
+  else (match split_colon s with
+        | Some p ->
+          let (l, l0) = p in
+          (match l with
+           | [] -> None
+           | n0 :: l1 -> Some ((n0 :: l1), l0))
+        | None -> None)
+
+(** val read_value : n list -> (n list * n list) option **)
+
+let read_value s =
+  if head_is (Npos (XO (XI (XO (XO (XO XH)))))) s
+  then rq QN [] (tl s)
+  else None
+
+(** val read_entries :
+    nat -> n list -> ((n list * n list) list * n list) option **)
+
+let rec read_entries fuel s =
+  match fuel with
+  | O -> None
+  | S f ->
+    (match read_key s with
+     | Some p ->
+       let (k, r1) = p in
+       (match read_value r1 with
+        | Some p0 ->
+          let (v, r2) = p0 in
+          if head_is (Npos (XI (XO (XI (XI (XI (XI XH))))))) r2
+          then Some (((k, v) :: []), (tl r2))
+          else if starts2 (Npos (XO (XO (XI (XI (XO XH)))))) (Npos (XO (XO
+                    (XO (XO (XO XH)))))) r2
+               then (match read_entries f (skipn (S (S O)) r2) with
+                     | Some p1 ->
+                       let (m, rest) = p1 in Some (((k, v) :: m), rest)
+                     | None -> None)
+               else None
+        | None -> None)
+     | None -> None)
+
+(** val read_env : n list -> ((n list * n list) list * n list) option **)
+
+let read_env s =
+  if head_is (Npos (XI (XI (XO (XI (XI (XI XH))))))) s
+  then if head_is (Npos (XI (XO (XI (XI (XI (XI XH))))))) (tl s)
+       then Some ([], (tl (tl s)))
+       else read_entries (length s) (tl s)
+  else None
 
 (** val dec_aux : nat -> n -> n list -> n list **)
 
